@@ -30,6 +30,9 @@ pub enum Busy {
         next: usize,
         rem: u32,
     },
+    /// one raw level stream per named input pin (12.48in: four busy lines); each alternates
+    /// high, low, high, ... once exhausted
+    Multi(Vec<(&'static str, Vec<bool>, usize)>),
 }
 
 pub struct World {
@@ -56,7 +59,7 @@ impl World {
             polls: 0,
         }
     }
-    fn level(&mut self) -> bool {
+    fn level(&mut self, pin: &str) -> bool {
         self.polls += 1;
         if self.polls > POLL_LIMIT {
             // a wait loop that never sees the idle level: report divergence instead of spinning
@@ -79,6 +82,16 @@ impl World {
                 } else {
                     *busy_low
                 }
+            }
+            Busy::Multi(streams) => {
+                let s = streams.iter_mut().find(|s| s.0 == pin).expect("busy stream for pin");
+                let l = if s.2 < s.1.len() {
+                    s.1[s.2]
+                } else {
+                    (s.2 - s.1.len()) % 2 == 0
+                };
+                s.2 += 1;
+                l
             }
         }
     }
@@ -224,13 +237,13 @@ impl PinErrorType for In {
 impl InputPin for In {
     fn is_high(&mut self) -> Result<bool, PinErrorKind> {
         let mut w = self.0.borrow_mut();
-        let l = w.level();
+        let l = w.level(self.1);
         w.ev.push(Ev::Poll(self.1, false, l));
         Ok(l)
     }
     fn is_low(&mut self) -> Result<bool, PinErrorKind> {
         let mut w = self.0.borrow_mut();
-        let l = w.level();
+        let l = w.level(self.1);
         w.ev.push(Ev::Poll(self.1, true, !l));
         Ok(!l)
     }
